@@ -99,13 +99,47 @@ theorem cosAcc_ge0 (L : FloatLaws F) : ∀ (a b : List F.F32) (d na nb : F.F32),
     exact cosAcc_ge0 L xs ys _ _ _ (fun z hz => ha z (by simp [hz])) (fun z hz => hb z (by simp [hz]))
       (L.add32_ge0 _ _ h1 (L.sq_ge0 x (ha x (by simp)))) (L.add32_ge0 _ _ h2 (L.sq_ge0 y (hb y (by simp))))
 
+theorem cosTail_symm (L : FloatLaws F) (d na nb : F.F64) (h1 : F.isNaN64 na = false) (h2 : F.isNaN64 nb = false) :
+    cosTail F d na nb = cosTail F d nb na := by
+  unfold cosTail
+  rw [Bool.or_comm, L.mul64_comm _ _ h1 h2]
+
 theorem cosFinish_symm (L : FloatLaws F) (d na nb : F.F32) (h1 : F.ge0_32 na = true) (h2 : F.ge0_32 nb = true) :
     cosFinish F d na nb = cosFinish F d nb na := by
   unfold cosFinish
-  have n1 := ge0_64_notNaN (L.sqrt_ge0 _ (L.to64_ge0 _ h1))
-  have n2 := ge0_64_notNaN (L.sqrt_ge0 _ (L.to64_ge0 _ h2))
-  simp only []
-  rw [Bool.or_comm, L.mul64_comm _ _ n1 n2]
+  exact cosTail_symm L _ _ _ (ge0_64_notNaN (L.sqrt_ge0 _ (L.to64_ge0 _ h1))) (ge0_64_notNaN (L.sqrt_ge0 _ (L.to64_ge0 _ h2)))
+
+theorem cosAcc64_symm (L : FloatLaws F) : ∀ (a b : List F.F32) (d na nb : F.F64), NoNaN F a → NoNaN F b →
+    cosAcc64 F b a (d, nb, na) = ((cosAcc64 F a b (d, na, nb)).1, (cosAcc64 F a b (d, na, nb)).2.2, (cosAcc64 F a b (d, na, nb)).2.1)
+  | [], [], _, _, _, _, _ => rfl
+  | [], _ :: _, _, _, _, _, _ => rfl
+  | _ :: _, [], _, _, _, _, _ => rfl
+  | x :: xs, y :: ys, d, na, nb, ha, hb => by
+    simp only [cosAcc64]
+    rw [L.mul64_comm _ _ (L.to64_notNaN y (hb y (by simp))) (L.to64_notNaN x (ha x (by simp)))]
+    exact cosAcc64_symm L xs ys _ _ _ (fun z hz => ha z (by simp [hz])) (fun z hz => hb z (by simp [hz]))
+
+theorem cosAcc64_ge0 (L : FloatLaws F) : ∀ (a b : List F.F32) (d na nb : F.F64), NoNaN F a → NoNaN F b →
+    F.ge0_64 na = true → F.ge0_64 nb = true →
+    F.ge0_64 (cosAcc64 F a b (d, na, nb)).2.1 = true ∧ F.ge0_64 (cosAcc64 F a b (d, na, nb)).2.2 = true
+  | [], [], _, _, _, _, _, h1, h2 => ⟨h1, h2⟩
+  | [], _ :: _, _, _, _, _, _, h1, h2 => ⟨h1, h2⟩
+  | _ :: _, [], _, _, _, _, _, h1, h2 => ⟨h1, h2⟩
+  | x :: xs, y :: ys, d, na, nb, ha, hb, h1, h2 => by
+    simp only [cosAcc64]
+    exact cosAcc64_ge0 L xs ys _ _ _ (fun z hz => ha z (by simp [hz])) (fun z hz => hb z (by simp [hz]))
+      (L.add64_ge0 _ _ h1 (L.sq64_ge0 _ (L.to64_notNaN x (ha x (by simp)))))
+      (L.add64_ge0 _ _ h2 (L.sq64_ge0 _ (L.to64_notNaN y (hb y (by simp)))))
+
+theorem cosWide_symm (L : FloatLaws F) (a b : List F.F32) (ha : NoNaN F a) (hb : NoNaN F b) :
+    cosWide F a b = cosWide F b a := by
+  unfold cosWide
+  have hs := cosAcc64_symm L a b F.zero64 F.zero64 F.zero64 ha hb
+  have hg := cosAcc64_ge0 L a b F.zero64 F.zero64 F.zero64 ha hb L.zero64_ge0 L.zero64_ge0
+  rw [hs]
+  generalize cosAcc64 F a b (F.zero64, F.zero64, F.zero64) = r at hg
+  obtain ⟨d, na, nb⟩ := r
+  exact cosTail_symm L d _ _ (ge0_64_notNaN (L.sqrt_ge0 _ hg.1)) (ge0_64_notNaN (L.sqrt_ge0 _ hg.2))
 
 theorem cosine_symm (L : FloatLaws F) (a b : List F.F32) (ha : NoNaN F a) (hb : NoNaN F b) :
     cosine F a b = cosine F b a := by
@@ -115,10 +149,14 @@ theorem cosine_symm (L : FloatLaws F) (a b : List F.F32) (ha : NoNaN F a) (hb : 
   · rfl
   · have hs := cosAcc_symm L a b F.zero32 F.zero32 F.zero32 ha hb
     have hg := cosAcc_ge0 L a b F.zero32 F.zero32 F.zero32 ha hb L.zero32_ge0 L.zero32_ge0
-    rw [hs]
+    rw [hs, cosWide_symm L b a hb ha]
     generalize cosAcc F a b (F.zero32, F.zero32, F.zero32) = r at hg
     obtain ⟨d, na, nb⟩ := r
-    exact cosFinish_symm L d na nb hg.1 hg.2
+    simp only []
+    rw [cosFinish_symm L d na nb hg.1 hg.2]
+    have : (F.isFin32 d && F.isFin32 nb && F.isFin32 na) = (F.isFin32 d && F.isFin32 na && F.isFin32 nb) := by
+      cases F.isFin32 d <;> cases F.isFin32 na <;> cases F.isFin32 nb <;> rfl
+    rw [this]
 
 /-! ### non-negativity -/
 
@@ -214,14 +252,13 @@ theorem manhattan_self (L : FloatLaws F) (a : List F.F32) (ha : AllFin F a) :
 
 /-! ### cosine range -/
 
-theorem cosFinish_range (L : FloatLaws F) (d na nb : F.F32) :
-    F.isNaN64 (cosFinish F d na nb) = true ∨
-      (F.le64 F.zero64 (cosFinish F d na nb) = true ∧ F.le64 (cosFinish F d na nb) F.two64 = true) := by
-  unfold cosFinish
-  simp only []
+theorem cosTail_range (L : FloatLaws F) (d na nb : F.F64) :
+    F.isNaN64 (cosTail F d na nb) = true ∨
+      (F.le64 F.zero64 (cosTail F d na nb) = true ∧ F.le64 (cosTail F d na nb) F.two64 = true) := by
+  unfold cosTail
   split
   · exact Or.inr ⟨L.le64_zero_zero, L.le64_zero_two⟩
-  · generalize F.div64 (F.to64 d) (F.mul64 (F.sqrt64 (F.to64 na)) (F.sqrt64 (F.to64 nb))) = sim
+  · generalize F.div64 d (F.mul64 na nb) = sim
     obtain ⟨c1, c2, c3, c4, c5⟩ := L.lt64_irrefl_consts
     cases hn : F.isNaN64 sim with
     | true =>
@@ -249,7 +286,7 @@ theorem cosFinish_range (L : FloatLaws F) (d na nb : F.F32) :
           simp only [Bool.false_eq_true, ↓reduceIte]
           exact L.one_sub_range _ hn h1 h2
 
-/-- `cosine_distance` of equally long vectors is a NaN or lies in `[0, 2]`. -/
+/-- `cosine_distance` of equally long vectors is a NaN or lies in `[0, 2]` (both accumulation widths). -/
 theorem cosine_range (L : FloatLaws F) (a b : List F.F32) (h : a.length = b.length) :
     F.isNaN64 (cosine F a b) = true ∨
       (F.le64 F.zero64 (cosine F a b) = true ∧ F.le64 (cosine F a b) F.two64 = true) := by
@@ -257,9 +294,15 @@ theorem cosine_range (L : FloatLaws F) (a b : List F.F32) (h : a.length = b.leng
   simp only [h, bne_self_eq_false, Bool.false_eq_true, ↓reduceIte]
   generalize cosAcc F a b (F.zero32, F.zero32, F.zero32) = r
   obtain ⟨d, na, nb⟩ := r
-  exact cosFinish_range L d na nb
+  simp only []
+  split
+  · exact cosTail_range L _ _ _
+  · unfold cosWide
+    generalize cosAcc64 F a b (F.zero64, F.zero64, F.zero64) = r2
+    obtain ⟨d2, na2, nb2⟩ := r2
+    exact cosTail_range L _ _ _
 
-/-- all three accumulators of the single pass coincide on identical inputs. -/
+/-- all three accumulators of the single pass coincide on identical inputs (both widths). -/
 theorem cosAcc_self : ∀ (a : List F.F32) (s : F.F32),
     ∃ t, cosAcc F a a (s, s, s) = (t, t, t)
   | [], s => ⟨s, rfl⟩
@@ -267,10 +310,18 @@ theorem cosAcc_self : ∀ (a : List F.F32) (s : F.F32),
     simp only [cosAcc]
     exact cosAcc_self xs _
 
+theorem cosAcc64_self : ∀ (a : List F.F32) (s : F.F64),
+    ∃ t, cosAcc64 F a a (s, s, s) = (t, t, t)
+  | [], s => ⟨s, rfl⟩
+  | x :: xs, s => by
+    simp only [cosAcc64]
+    exact cosAcc64_self xs _
+
 /-- the float fact behind "cosine distance of a vector to itself is ≈ 0":
-    `1 - clamp(s / (√s·√s))` is within `eps` of zero for every `s` the accumulation can produce. -/
+    `1 - clamp(s / (√s·√s))` is within `eps` of zero for every accumulated `s` (unless it is a NaN). -/
 def SqrtRoundTrip (F : FloatOps) (eps : F.F64) : Prop :=
-  ∀ s : F.F32, F.isNaN64 (cosFinish F s s s) = false → F.le64 (cosFinish F s s s) eps = true
+  ∀ s : F.F64, F.isNaN64 (cosTail F s (F.sqrt64 s) (F.sqrt64 s)) = false →
+    F.le64 (cosTail F s (F.sqrt64 s) (F.sqrt64 s)) eps = true
 
 theorem cosine_self (a : List F.F32) (eps : F.F64) (H : SqrtRoundTrip F eps)
     (hn : F.isNaN64 (cosine F a a) = false) : F.le64 (cosine F a a) eps = true := by
@@ -278,7 +329,17 @@ theorem cosine_self (a : List F.F32) (eps : F.F64) (H : SqrtRoundTrip F eps)
   simp only [bne_self_eq_false, Bool.false_eq_true, ↓reduceIte] at hn ⊢
   obtain ⟨t, ht⟩ := cosAcc_self (F := F) a F.zero32
   rw [ht] at hn ⊢
-  exact H t hn
+  simp only [] at hn ⊢
+  split at hn
+  · rename_i hf
+    simp only [hf, ↓reduceIte]
+    exact H (F.to64 t) hn
+  · rename_i hf
+    simp only [hf, ↓reduceIte]
+    unfold cosWide at hn ⊢
+    obtain ⟨t2, ht2⟩ := cosAcc64_self (F := F) a F.zero64
+    rw [ht2] at hn ⊢
+    exact H t2 hn
 
 /-! ### int8 distances: exact integer accumulation -/
 
@@ -316,15 +377,18 @@ theorem manhattanI8_self (a : List Int) : manhattanI8 F a a = F.ofInt64 0 := by
   simp only [bne_self_eq_false, Bool.false_eq_true, ↓reduceIte]
   rw [zipInt_self_zero _ (fun x => by simp) a]
 
-/-- `cosine_distance_int8` of an all-zero vector with itself is `1.0`, not `0` (vector_ops.rs:607). -/
-theorem cosineI8_zero_self (n : Nat) : cosineI8 F (List.replicate n 0) (List.replicate n 0) = F.one64 := by
+/-- `cosine_distance_int8` of two all-zero vectors is `0.0` (as `cosine_distance` on zero vectors). -/
+theorem cosineI8_zero_self (n : Nat) : cosineI8 F (List.replicate n 0) (List.replicate n 0) = F.zero64 := by
   unfold cosineI8
   simp only [bne_self_eq_false, Bool.false_eq_true, ↓reduceIte]
-  have : zipInt (fun x _ => x * x) (List.replicate n 0) (List.replicate n 0) = 0 := by
-    induction n with
+  have hz : ∀ (f : Int → Int → Int), f 0 0 = 0 → ∀ k : Nat, zipInt f (List.replicate k 0) (List.replicate k 0) = 0 := by
+    intro f hf k
+    induction k with
     | zero => rfl
-    | succ k ih => simp only [List.replicate_succ, zipInt]; rw [ih]; rfl
-  simp [this]
+    | succ k ih => simp only [List.replicate_succ, zipInt]; rw [ih, hf]; rfl
+  have h1 := hz (fun x _ => x * x) (by simp) n
+  have h2 := hz (fun _ y => y * y) (by simp) n
+  simp [h1, h2]
 
 /-! ### an exact-integer instance satisfying the laws -/
 
@@ -363,6 +427,8 @@ def toyFloat : FloatOps where
   abs64 x := x.natAbs
   neg64 x := -x
   sqrt64 x := (isqrt x.toNat : Nat)
+  round64 x := x
+  toI8_64 x := if x < -128 then -128 else if x > 127 then 127 else x
   lt64 a b := decide (a < b)
   eq64 a b := decide (a = b)
   isNaN64 _ := false
@@ -416,6 +482,10 @@ theorem toyFloat_laws : FloatLaws toyFloat where
   negZero32_ge0 := rfl
   negZero64_ge0 := rfl
   zero64_ge0 := rfl
+  sq64_ge0 := fun (x : Int) _ => by
+    show (!false && !decide ((x : Int) * x < 0)) = true
+    have := mul_self_nonneg x
+    simp; omega
   inf64_ge0 := rfl
   sub_self := fun (x : Int) _ => by show (x : Int) - x = 0; omega
   mul_zero_zero := rfl
